@@ -39,11 +39,12 @@ contract(ML + 'get_warning_count', params={'self': 'MessageLogger'}, returns='in
 
 for _name, _lt in (('warn', 0), ('error', 1), ('fatal', 2)):
     contract(M + _name,
-             params={'text': 'str', 'positions': 'any', 'prefix': 'str?', 'marker_pos': 'int?', 'marker_line': 'str?'},
+             params={'text': 'any', 'positions': 'any', 'prefix': 'str?', 'marker_pos': 'int?', 'marker_line': 'str?'},
              props=('C11',), requires=[POS_OK], no_return=(_lt == 2),
              modifies=['LOGGER._warning_count'],
              raises={'SystemExit': 'True' if _lt == 2 else 'False'},
-             ensures={'C11.%s.counted_once' % _name: 'LOGGER._warning_count == old(LOGGER._warning_count) + 1'},
+             ensures=dict([('C11.%s.counted_once' % _name, 'LOGGER._warning_count == old(LOGGER._warning_count) + 1')] +
+                          ([('C11.fatal.does_not_return', 'False')] if _lt == 2 else [])),
              exc_ensures={'C11.%s.counted_on_exit' % _name:
                           ('SystemExit', 'LOGGER._warning_count == old(LOGGER._warning_count) + 1')})
 
